@@ -18,3 +18,8 @@ func TestWhiteBox(t *testing.T) {
 func TestBlackBox(t *testing.T) {
 	hk.RunSub(t, hk.Sub[BPlan]{Name: "bb/qcontroller-backoff", Quick: 2500, Thorough: 12000, Gen: GenB, Run: RunB, Journal: true})
 }
+
+// TestStress runs the queue under real goroutines (no settling between operations).
+func TestStress(t *testing.T) {
+	hk.RunSub(t, hk.Sub[SQPlan]{Name: "s4/queue-stress", Quick: 400, Thorough: 4000, Gen: GenSQ, Run: RunSQ, Journal: true})
+}
